@@ -145,6 +145,10 @@ class SchemaValidator:
         issues_list = []
         issues_list += self._check_unknown_attributes(tag_entry)
         for attribute_name in tag_entry.attributes:
+            # An attribute that is not declared for this section is reported above.  The attribute validators
+            # assume the declared domain (entry class, value type), so they are only run on declared attributes.
+            if tag_entry._unknown_attributes and attribute_name in tag_entry._unknown_attributes:
+                continue
             validators = self._get_validators(attribute_name)
             issues_list += self._run_validators(tag_entry, attribute_name, validators)
         return issues_list
